@@ -38,6 +38,8 @@ CONFIGS = {
     "html": dict(pre=["pre", "textarea"], cont={"script": 6, "style": 7, "template": 8, "rt": 9, "rp": 10}),
     "xml": dict(pre=[], cont={}),
     "custom": dict(pre=["a"], cont={"b": 1, "pre": 6}),
+    # one name in BOTH sets (the stock HTML sets are disjoint): both context stacks must be popped when it closes
+    "both": dict(pre=["pre", "script"], cont={"pre": 6, "script": 6, "a": 9}),
 }
 
 # the event alphabet: symbol -> list of protocol events
@@ -238,15 +240,15 @@ def run(ctx: Ctx):
                 "whitespace with newline / empty chunk, a comment) exhaustively to length L (quick 3 for all configs + 4 for html; thorough 5 html, "
                 "4 others) + random lists to length 40 over the alphabet extended with 10 more symbols (other prefixes, </[document]>, "
                 "explicit endData, whitespace-only comment, CDATA, form feed, nbsp); configs: html / xml / custom (preserve={a}, "
-                "containers={b:Comment, pre:Script}). non-trivial = at least one start and one end tag")
+                "containers={b:Comment, pre:Script}) / both (pre and script are whitespace-preserving AND string containers). non-trivial = at least one start and one end tag")
     ctx.assumptions = ["events arrive through a harness TreeBuilder calling handle_starttag/handle_endtag/handle_data/endData, as html.parser's adapter does"]
     syms = list(ALPHABET)
     lines, impls, cases = [], [], []
     plan = []
     if ctx.thorough:
-        plan = [("html", 5), ("xml", 4), ("custom", 4)]
+        plan = [("html", 5), ("xml", 4), ("custom", 4), ("both", 4)]
     else:
-        plan = [("html", 4), ("xml", 3), ("custom", 3)]
+        plan = [("html", 4), ("xml", 3), ("custom", 3), ("both", 3)]
     for cfgname, L in plan:
         n = 0
         for k in range(L + 1):
